@@ -4,7 +4,7 @@
    input and the executable spec (Spec.spec_ok) on the implementation's observation.
    result code: 0 agree & spec holds, 1 differ & spec holds, 2 differ & spec fails,
                 3 agree & spec fails (model mirrors a defect). *)
-From Verif Require Export C05.Model.
+From Verif Require Export C05.Model C05.StreamModel C05.ShowModel.
 From Verif Require Import C05.Spec.
 Open Scope N_scope.
 
@@ -37,7 +37,27 @@ Inductive case :=
          (ores : list obs_res)                     (* per op: what the caller got *)
          (ologs : list (list (N * list N)))        (* per op: requests received by the nodes that are up *)
 (* one MetaExecutor call against a node doing [out]: did the client report an error? *)
-| CResp (o : op) (out : outcome) (impl_err : bool).
+| CResp (o : op) (out : outcome) (impl_err : bool)
+(* storeStreamReceiver.Recv called until it fails, on the first k bytes of the messages [fs]
+   (type, payload) written by the real sender followed by [tail]: the responses it returned
+   (trailer?, re-marshalled payload) and whether the last call returned an error other than io.EOF *)
+| CRecv (fs : list (N * list N)) (tail : list N) (k : N)
+        (omsgs : list (bool * list N)) (oerr : bool)
+(* MetaExecutor.ReadFilter / ReadGroup (grp) against a node (or, with hdr = 0, a result set
+   reader over the receiver) whose byte stream - a response message of hdr bytes, then the
+   messages [ms] (type, payload length, frames) - is closed after k bytes.  [ref]: the result
+   of the single-store reference.  Observed: did the call fail, the items the result set
+   delivered, whether it ended with an error, whether a delivered value was damaged *)
+| CSRead (grp : bool) (hdr : N) (ms : list (N * N * list aframe)) (k : N)
+         (ref : list (N * N * list N))
+         (ocall_err : bool) (oitems : list (N * N * list N)) (oerr : bool) (ocorrupt : bool)
+(* ClusterTSDBStore.{MeasurementNames, TagKeys, TagValues} on node [local] of a cluster with data
+   nodes [nodes], shards (id, owners), items per shard; nodes refusing connections / replying
+   with an error.  [ref]: the listing of a single store holding all shards.  Observed listing
+   and whether an error was returned *)
+| CShow (local : N) (nodes : list N) (shards : list (N * list N)) (data : list (N * list N))
+        (down : list N) (errs : list N)
+        (ref : list N) (ores : list N) (oerr : bool).
 
 Definition mk_shards (l : list (N * list N)) : list shard := map (fun p => mkShard (fst p) (snd p)) l.
 
@@ -139,4 +159,31 @@ Definition check_case (c : case) : N :=
                 | _ => impl_err      (* a dial failure, a cut reply or an error reply must surface *)
                 end in
       code (Bool.eqb m impl_err) ok
+  | CRecv fs tail k omsgs oerr =>
+      let '(msgs, e) := recv_stream true (cut k (enc_stream fs ++ tail)) in
+      let same := fun (m : N * list N) (o : bool * list N) =>
+                    Bool.eqb (fst m =? trailer_typ) (fst o) && (fst o || nlist_eqb (snd m) (snd o)) in
+      let agree := all2 same msgs omsgs
+                   && match e with EndEOF => negb oerr | EndErr => oerr | EndFuel => false end in
+      (* what was received is a prefix of what was sent, and all of it unless an error is reported *)
+      let ok := all2 same (firstn (length omsgs) fs) omsgs
+                && (oerr || Nat.eqb (length omsgs) (length fs)) in
+      code agree ok
+  | CSRead grp hdr ms k ref ocall_err oitems oerr ocorrupt =>
+      let r := sread true grp hdr ms k in
+      let o := if ocall_err then SCallErr else SStream oitems oerr in
+      let agree := match r, o with
+                   | SCallErr, SCallErr => true
+                   | SStream a ea, SStream b eb => items_eqb a b && Bool.eqb ea eb
+                   | _, _ => false
+                   end in
+      code agree (sread_ok ref o && negb ocorrupt)
+  | CShow local nodes shards0 data0 down errs ref ores oerr =>
+      let shards := mk_shards shards0 in
+      let data := lookup_rows data0 in
+      let beh := fun n => if memN n down then NDown else if memN n errs then NError else NServe in
+      let r := show_fanout local nodes beh data shards in
+      let agree := show_eqb (fst r) ores && Bool.eqb (snd r) oerr
+                   && show_eqb (show_reference data shards) ref in
+      code agree (show_ok ref (ores, oerr))
   end.
